@@ -1,12 +1,26 @@
 /-
-  C10 proofs.  (1) From the REGENERATED fact list `Gen.storageCalls` (every call pkg/op makes into the
-  storage, with whether its error is examined before the handler goes on): all of them are checked.
-  (2) The abstract consequence: a handler that is a sequence of storage calls whose errors are each
-  propagated answers with an error whenever ANY one of them fails, whatever the index, the error and
-  the state - and produces its payload only if all succeeded (induction over the call list).
+  C10 proofs.
+  (1) Call-site facts (`Gen.storageCalls`, kept from the first version): every call pkg/op makes into the storage has its
+      error examined by the statement that runs next.
+  (2) The abstract core: a handler that is a sequence of storage calls whose errors are each propagated answers with an error
+      whenever ANY one of them fails (Except monad, induction over the call list): `c10_fail_closed`.
+  (3) The handlers themselves: factgen regenerates an error-flow tree for every function of pkg/op between an HTTP handler and
+      the storage (`GenC10.fns`); `C10.Flow.drops` lists the paths on which the error of a failed call is dropped, and
+      `C10.Flow.drops_sound` (Proofs/C10Flow.lean, induction over executions of ANY program) turns "no drops" into the
+      property.  Here the analysis is evaluated on the regenerated trees, with a small hand-audited table of tolerated sites
+      (`toleratedSites`, each with its justification) that is proved to be exactly the set of drop sites of the regenerated code:
+      a new dropped-error path changes a regenerated definition and breaks `c10_flow_all_ok` / `c10_tolerated_audited`.
+      `c10_fail_closed_handlers_partial`: for every regenerated function, every execution, every failing storage call, every
+      error kind: no success-building step and no further storage call follows and the function ends in the error class
+      (error responder, or an error return its caller turns into one) - unless the failure arrived at an audited site.
+      "partial": two of the audited sites are a FINDING on the unchanged code (F-C10a, `c10_revoke_keyset_witness`).
+  (4) `c10_handlers_refine_abstract` ties (3) to (2); `c10_device_mapping`, `c10_unvalidated_redirect_guard` pin which error a
+      failing storage call is answered with where the property depends on it.
 -/
 import OidcModel.Spec.C10
 import OidcModel.Generated.StorageCalls
+import OidcModel.Generated.C10Facts
+import OidcModel.Proofs.C10Flow
 
 namespace C10
 
@@ -66,7 +80,7 @@ theorem c10_fail_closed {σ : Type} (calls : List (Call σ)) (k : Nat) (hk : k <
   intro s'
   refine ⟨e, ?_⟩
   have hlen : k < (inject calls k e).length := by simpa [inject] using hk
-  simp [inject, List.getElem!_eq_getElem?_getD, List.getElem?_mapIdx, hk]
+  simp [inject, hk]
 
 /-- and without a fault the payload is produced only if every call succeeded -/
 theorem c10_success_needs_all {σ : Type} (calls : List (Call σ)) (s r : σ) (h : runCalls calls s = .ok r) :
@@ -74,5 +88,277 @@ theorem c10_success_needs_all {σ : Type} (calls : List (Call σ)) (s r : σ) (h
   intro i hi hf
   obtain ⟨e, he⟩ := runCalls_error_of_fails calls s ⟨i, hi, hf⟩
   rw [he] at h; cases h
+
+/-! ## the regenerated handlers -/
+
+open C10.Flow
+
+/-- an audited sentinel: `errors.Is / errors.As` tests against it let the caller go on WITHOUT treating the error as a failure -/
+structure Sentinel where
+  name : String
+  why : String
+
+/-- ASSUMPTION (listed in the evidence): a failing storage call does not return an error that matches one of these -/
+def benignSentinels : List Sentinel := [
+  { name := "ErrNoClientCredentials", why := "ClientIDFromRequest: no Basic header / no assertion was sent, the next credential source is tried; produced only by ClientBasicAuth / ClientJWTAuth BEFORE any storage call (r.BasicAuth() not ok, empty assertion)" },
+  { name := "ErrInvalidRefreshToken", why := "Revoke / LegacyServer.Revocation: the storage's documented answer 'this is not a refresh token' from GetRefreshTokenInfo; the token is then treated as an access token" },
+  { name := "IDTokenHintExpiredError", why := "VerifyIDTokenHint: signature, issuer and ACR were verified, only the expiry checks failed; id_token_hint (authorize, end_session) may be an expired token" }]
+
+/-- an audited call site whose failure is NOT turned into an error answer -/
+structure Tolerated where
+  fn : String
+  callee : String
+  allow : List String          -- the only success steps / calls that may follow the failure inside fn
+  why : String
+  finding : Option String := none
+
+/-- the complete list (proved equal to the drop sites of the regenerated trees: `c10_tolerated_audited`) -/
+def toleratedSites : List Tolerated := [
+  { fn := "SigAlgorithms", callee := "Storage.SignatureAlgorithms", allow := [],
+    why := "discovery document: a failing SignatureAlgorithms yields the document without the alg list (200); no secret, not a flow (DESIGN §4.21)" },
+  { fn := "LegacyServer.Introspect", callee := "Storage.SetIntrospectionFromToken", allow := ["NewResponse"],
+    why := "introspection answers 200 {\"active\":false}: `response.Active = true` is only assigned after the call succeeded (DESIGN §4.21; the monitor checks active is not true)" },
+  { fn := "LegacyServer.Introspect", callee := "getTokenIDAndSubject", allow := ["NewResponse"],
+    why := "introspection: an access token that cannot be read (incl. a failing KeySet lookup) is reported as not active" },
+  { fn := "LegacyServer.Revocation", callee := "getTokenIDAndSubjectForRevocation", allow := ["Storage.RevokeToken", "NewResponse"], finding := some "F-C10a",
+    why := "FINDING: a JWT access token whose verification fails because Storage.KeySet failed is handed to RevokeToken as an opaque string; a storage that ignores unknown tokens makes the endpoint answer 200 although nothing was revoked" },
+  { fn := "GetTokenIDAndSubjectFromToken", callee := "getTokenIDAndClaims", allow := ["Storage.VerifyExchangeActorToken", "Storage.VerifyExchangeSubjectToken"],
+    why := "token exchange: a subject / actor token the provider cannot read is handed to the storage's own verifier (TokenExchangeTokensVerifierStorage), whose error ends the request; without that interface the request is refused" },
+  { fn := "GetTokenIDAndSubjectFromToken", callee := "Storage.TokenRequestByRefreshToken", allow := ["Storage.VerifyExchangeActorToken", "Storage.VerifyExchangeSubjectToken"], why := "token exchange: as above (refresh token as subject / actor token)" },
+  { fn := "GetTokenIDAndSubjectFromToken", callee := "VerifyIDTokenHint", allow := ["Storage.VerifyExchangeActorToken", "Storage.VerifyExchangeSubjectToken"], why := "token exchange: as above (ID token as subject / actor token)" },
+  { fn := "Introspect", callee := "Storage.SetIntrospectionFromToken", allow := ["httphelper.MarshalJSON"], why := "as LegacyServer.Introspect" },
+  { fn := "Introspect", callee := "getTokenIDAndSubject", allow := ["httphelper.MarshalJSON"], why := "as LegacyServer.Introspect" },
+  { fn := "Revoke", callee := "getTokenIDAndSubjectForRevocation", allow := ["Storage.RevokeToken", "httphelper.MarshalJSON"], finding := some "F-C10a", why := "FINDING: as LegacyServer.Revocation" }]
+
+/-- the `errors.Is / errors.As` tests on followed error variables, per function (proved equal to the regenerated ones) -/
+def auditedSentinelTests : List (String × String) := [
+  ("ValidateAuthReqIDTokenHint", "IDTokenHintExpiredError"),
+  ("ClientIDFromRequest", "ErrNoClientCredentials"),
+  ("CheckDeviceAuthorizationState", "context.DeadlineExceeded"),
+  ("LegacyServer.Revocation", "ErrInvalidRefreshToken"),
+  ("ValidateEndSessionRequest", "IDTokenHintExpiredError"),
+  ("Revoke", "ErrInvalidRefreshToken")]
+
+def audit : Audit := { benign := benignSentinels.map (·.name), tol := toleratedSites.map fun t => { fn := t.fn, callee := t.callee, allow := t.allow } }
+
+/-- the regenerated program is closed: every callee index names a regenerated function -/
+theorem c10_flow_callees_resolved : GenC10.fns.all (fun F => calleesIn GenC10.fns.length F.sk) = true := by decide
+
+/-- THE check: with the audited tolerances no regenerated function has a path on which a failed call's error is dropped -/
+theorem c10_flow_all_ok : GenC10.fns.all (fnOK GenC10.fns audit) = true := by decide
+
+/-- functions without an error result (handlers, `SigAlgorithms`) yield nothing in the error position -/
+theorem c10_flow_noerr_nil : GenC10.fns.all (fun F => !F.noErrResult || retsNil F.sk) = true := by decide
+
+/-- the audited table is EXACTLY the list of drop sites of the regenerated trees (analysis without any tolerance):
+    nothing is tolerated that is not a drop, and (with `c10_flow_all_ok`) every drop is in the table -/
+theorem c10_tolerated_audited :
+    (GenC10.fns.flatMap fun F => (rawDropSites GenC10.fns audit.benign F).map fun c => (F.name, c)) = toleratedSites.map (fun t => (t.fn, t.callee)) := by decide
+
+/-- the sentinel tests of the regenerated trees are the audited ones: a new `errors.Is` escape hatch changes this list -/
+theorem c10_sentinel_tests_audited :
+    (GenC10.fns.flatMap fun F => (dedupStr (sentinelTests F.sk)).map fun s => (F.name, s)) = auditedSentinelTests := by decide
+
+/-- every sentinel test is against an audited benign sentinel, except the device mapping's deadline test (which only selects
+    between two error answers, `c10_device_mapping`) -/
+theorem c10_sentinels_benign :
+    (auditedSentinelTests.all fun t => audit.benign.contains t.2 || t == ("CheckDeviceAuthorizationState", "context.DeadlineExceeded")) = true := by
+  decide
+
+theorem c10_wf : WF GenC10.fns audit where
+  ok g G h := by
+    have := List.all_eq_true.mp c10_flow_all_ok G (List.mem_of_getElem? h)
+    simpa [fnOK] using this
+  retNil g G h hn := by
+    have := List.all_eq_true.mp c10_flow_noerr_nil G (List.mem_of_getElem? h)
+    simpa [hn] using this
+
+/-- C10 for the regenerated handlers.  For EVERY function F regenerated from pkg/op (every HTTP handler and every helper between
+    it and the storage), EVERY execution of it (any initial environment, any outcome of every call and condition, callees
+    executed along their own regenerated trees), EVERY position i at which a call into the storage fails, with EVERY error kind:
+    the events after the failure contain no success-building step and no further storage call, and the function ends in the
+    error class - a handler has run an error responder, a helper returns a non-nil error (`false`) to its caller -
+    or the failure arrived at one of the audited tolerated sites. -/
+theorem c10_fail_closed_handlers_partial :
+    ∀ (f : Nat) (F : Fn), GenC10.fns[f]? = some F →
+    ∀ (ρ : Env) (tr : List Ev) (x : CV), Run GenC10.fns audit f F.sk ρ tr x →
+    ∀ (i g site : Nat) (kind : EKind), tr[i]? = some (.sfail g site kind) →
+      hasAbs (tr.drop (i + 1)) = true ∨
+      (noSucc (tr.drop (i + 1)) = true ∧ noFail (tr.drop (i + 1)) = true ∧ exitOK F.kind x (tr.drop (i + 1)) = true) := by
+  intro f F hF ρ tr x hrun i g site kind hi
+  have hg : Good F.kind x tr := fn_good c10_wf hF hrun
+  have := goodW_get tr i _ hg hi rfl
+  simpa [closed, Bool.or_eq_true, Bool.and_eq_true, and_assoc] using this
+
+/-- for the HTTP handlers proper (no result): after a failing storage call an error responder runs and nothing is built -/
+theorem c10_handlers_answer_with_error :
+    ∀ (f : Nat) (F : Fn), GenC10.fns[f]? = some F → F.kind = .void →
+    ∀ (ρ : Env) (tr : List Ev) (x : CV), Run GenC10.fns audit f F.sk ρ tr x →
+    ∀ (i g site : Nat) (kind : EKind), tr[i]? = some (.sfail g site kind) → hasAbs (tr.drop (i + 1)) = false →
+      hasResp (tr.drop (i + 1)) = true ∧ noSucc (tr.drop (i + 1)) = true ∧ noFail (tr.drop (i + 1)) = true := by
+  intro f F hF hk ρ tr x hrun i g site kind hi hna
+  rcases c10_fail_closed_handlers_partial f F hF ρ tr x hrun i g site kind hi with h | ⟨h1, h2, h3⟩
+  · rw [hna] at h; cases h
+  · rw [hk] at h3; exact ⟨h3, h1, h2⟩
+
+/-! ### connection with the abstract core -/
+
+/-- the storage calls of an execution as a call sequence of the abstract model: a failed call is the failing step -/
+def callsOf (tr : List Ev) : List (Call Unit) :=
+  (tr.filter Ev.isCall).map fun e => if e.isFail then (fun _ => .error "storage failure") else (fun s => .ok s)
+
+theorem callsOf_sfail (g s : Nat) (k : EKind) (t : List Ev) :
+    callsOf (.sfail g s k :: t) = (fun _ => .error "storage failure") :: callsOf t := rfl
+theorem callsOf_sok (g s : Nat) (t : List Ev) : callsOf (.sok g s :: t) = (fun s => .ok s) :: callsOf t := rfl
+theorem callsOf_succ (n : String) (t : List Ev) : callsOf (.succ n :: t) = callsOf t := rfl
+theorem callsOf_resp (n : String) (t : List Ev) : callsOf (.resp n :: t) = callsOf t := rfl
+theorem callsOf_absorbed (g s : Nat) (t : List Ev) : callsOf (.absorbed g s :: t) = callsOf t := rfl
+
+theorem runCalls_callsOf_error_iff (tr : List Ev) : (∃ e, runCalls (callsOf tr) () = .error e) ↔ noFail tr = false := by
+  induction tr with
+  | nil => simp [callsOf, runCalls, noFail]
+  | cons a t ih =>
+    cases a with
+    | sfail g s k => rw [callsOf_sfail]; simp [runCalls, noFail, Ev.isFail]
+    | sok g s =>
+      rw [callsOf_sok]; simp only [runCalls]
+      simpa [noFail, Ev.isFail] using ih
+    | succ n => rw [callsOf_succ]; simpa [noFail, Ev.isFail] using ih
+    | resp n => rw [callsOf_resp]; simpa [noFail, Ev.isFail] using ih
+    | absorbed g s => rw [callsOf_absorbed]; simpa [noFail, Ev.isFail] using ih
+
+/-- the abstract model applied to the storage calls of an execution predicts an error exactly when one of them failed -
+    and then the regenerated function does end in the error class (or the failure was absorbed at an audited site):
+    the Except-monad reading "a failed call ends the handler with an error" is what the concrete trees do. -/
+theorem c10_handlers_refine_abstract :
+    ∀ (f : Nat) (F : Fn), GenC10.fns[f]? = some F →
+    ∀ (ρ : Env) (tr : List Ev) (x : CV), Run GenC10.fns audit f F.sk ρ tr x →
+      ((∃ e, runCalls (callsOf tr) () = .error e) ↔ ∃ (i g site : Nat) (kind : EKind), tr[i]? = some (Ev.sfail g site kind)) ∧
+      ((∃ e, runCalls (callsOf tr) () = .error e) → hasAbs tr = false → exitOK F.kind x tr = true) := by
+  intro f F hF ρ tr x hrun
+  have hiff : noFail tr = false ↔ ∃ (i g site : Nat) (kind : EKind), tr[i]? = some (Ev.sfail g site kind) := by
+    constructor
+    · intro h
+      simp only [noFail, List.all_eq_false, Bool.not_eq_true, Bool.not_eq_false'] at h
+      obtain ⟨e, he, hf⟩ := h
+      obtain ⟨i, hi, hget⟩ := List.getElem_of_mem he
+      cases e with
+      | sfail g s k => exact ⟨i, g, s, k, by simp [List.getElem?_eq_getElem hi, hget]⟩
+      | sok g s => simp [Ev.isFail] at hf
+      | succ n => simp [Ev.isFail] at hf
+      | resp n => simp [Ev.isFail] at hf
+      | absorbed g s => simp [Ev.isFail] at hf
+    · rintro ⟨i, g, s, k, hi⟩
+      simp only [noFail, List.all_eq_false, Bool.not_eq_true, Bool.not_eq_false']
+      exact ⟨_, List.mem_of_getElem? hi, rfl⟩
+  refine ⟨(runCalls_callsOf_error_iff tr).trans hiff, fun herr hna => ?_⟩
+  obtain ⟨i, g, s, k, hi⟩ := hiff.mp ((runCalls_callsOf_error_iff tr).mp herr)
+  rcases c10_fail_closed_handlers_partial f F hF ρ tr x hrun i g s k hi with h | ⟨_, _, h3⟩
+  · exfalso
+    have : hasAbs tr = true := by
+      simp only [hasAbs, List.any_eq_true] at h ⊢
+      obtain ⟨e, he, ha⟩ := h
+      exact ⟨e, List.mem_of_mem_drop he, ha⟩
+    rw [hna] at this; cases this
+  · cases hk : F.kind <;> rw [hk] at h3 <;> simp only [exitOK] at h3 ⊢
+    · simp only [hasResp, List.any_eq_true] at h3 ⊢
+      obtain ⟨e, he, ha⟩ := h3
+      exact ⟨e, List.mem_of_mem_drop he, ha⟩
+    · exact h3
+    · exact h3
+    · exact h3
+
+/-! ### which error a failing storage call is answered with -/
+
+/-- device grant: a storage timeout while polling is answered with `slow_down`, any other storage failure with `access_denied` -/
+theorem c10_device_mapping :
+    failureWraps GenC10.fns audit.benign "CheckDeviceAuthorizationState" "GetDeviceAuthorizatonState" .deadline = ["oidc.ErrSlowDown"] ∧
+    failureWraps GenC10.fns audit.benign "CheckDeviceAuthorizationState" "GetDeviceAuthorizatonState" .plain = ["oidc.ErrAccessDenied"] ∧
+    failureWraps GenC10.fns audit.benign "CheckDeviceAuthorizationState" "GetDeviceAuthorizatonState" .oidc = ["oidc.ErrAccessDenied"] := by decide
+
+/-- authorization endpoint of the Provider router: while the redirect URI is NOT yet validated (the client lookup itself fails)
+    the error handed to AuthRequestError is the redirect-disabled `ErrInvalidRequestRedirectURI`, whatever the kind of failure -
+    so the answer is never a redirect to the unvalidated URI -/
+theorem c10_unvalidated_redirect_guard :
+    ([EKind.plain, .deadline, .oidc].all fun k =>
+      failureWraps GenC10.fns audit.benign "Authorize.func1" "GetClientByClientID" k == ["oidc.ErrInvalidRequestRedirectURI"] &&
+      failureWraps GenC10.fns audit.benign "ValidateAuthRequest" "GetClientByClientID" k == ["oidc.ErrInvalidRequestRedirectURI"]) = true := by decide
+
+/-! ### non-vacuity: concrete executions of the regenerated handlers (found by the executable path finder, `exec_sound`) -/
+
+/-- `/keys` with a failing KeySet (a timeout): the failure is followed by the error responder and nothing else -/
+example : execFn GenC10.fns audit "Keys" [.fail .deadline] =
+    some ([.sfail (GenC10.fns.findIdx (·.name == "Keys")) 0 .deadline, .resp "httphelper.MarshalJSONWithStatus"], .nil) := by decide
+
+/-- … and without a fault it builds the key set -/
+example : (execFn GenC10.fns audit "Keys" [.ok]).map (fun r => r.1.map Ev.isSucc) = some [false, true] := by decide
+
+/-- the token endpoint, authorization_code grant: AuthRequestByCode fails three functions below the handler
+    (CodeExchange → ValidateAccessTokenRequest → AuthorizeCodeClient → AuthRequestByCode); the error travels up and is answered -/
+example : (execFn GenC10.fns audit "CodeExchange"
+      [.val .nil, .right, .pick "ValidateAccessTokenRequest", .pick "AuthorizeCodeClient", .pick "AuthRequestByCode", .fail .oidc]).map
+      (fun r => (r.1.map Ev.isFail, r.1.map Ev.isResp, r.1.any Ev.isSucc)) = some ([true, false], [false, true], false) := by decide
+
+/-- the analysis is not vacuous: without the audited table the regenerated program does NOT pass … -/
+example : GenC10.fns.all (fnOK GenC10.fns { audit with tol := [] }) = false := by decide
+/-- … nor without the sentinel assumption (the credential fall-through of ClientIDFromRequest would count as a drop) -/
+example : GenC10.fns.all (fnOK GenC10.fns { audit with benign := [] }) = false := by decide
+example : decide (GenC10.fns.length ≥ 100) = true := by decide
+example : (GenC10.fns.any fun F => F.name == "CreateTokenResponse" && F.sites.contains "Storage.DeleteAuthRequest") = true := by decide
+
+/-- the shape of the seeded defect C10-D (the error of the Basic-auth attempt is only looked at on ONE branch, the other one
+    returns the form's client_id without an error) is reported as a drop … -/
+example : drops [] ["ErrNoClientCredentials"] [] [] .err
+    (.call 0 (.storage "AuthorizeClientIDSecret") 0 (.ifErr 0 (.ite (.ifIs 0 "ErrNoClientCredentials" (.ret (.fresh [] "oidc.ErrInvalidClient")) (.ret (.var 0 [] ""))) (.ret .nil)) (.ret .nil)))
+    [] (.clean none) = [(0, .retNotErr)] := by decide
+/-- … the original shape is not -/
+example : drops [] ["ErrNoClientCredentials"] [] [] .err
+    (.call 0 (.storage "AuthorizeClientIDSecret") 0 (.ifErr 0 (.ifIs 0 "ErrNoClientCredentials" (.ite (.ret (.fresh [] "oidc.ErrInvalidClient")) (.ret .nil)) (.ret (.var 0 [] ""))) (.ret .nil)))
+    [] (.clean none) = [] := by decide
+/-- an error overwritten before it is examined (C10-A), a deferred call (C10-C), an error only recorded (C04-B) -/
+example : drops [] [] [] [] .err (.call 0 (.storage "A") 0 (.ite (.call 1 (.storage "B") 0 (.ifErr 0 (.ret (.var 0 [] "")) (.ret .nil))) (.ifErr 0 (.ret (.var 0 [] "")) (.ret .nil)))) [] (.clean none)
+    = [(0, .callAfter)] := by decide
+example : drops [] [] [] [] .err (.call 0 (.storage "DeleteAuthRequest") 1 (.call 1 (.storage "CreateAccessToken") 0 (.ifErr 0 (.ret (.var 0 [] "")) (.ret .nil)))) [] (.clean none)
+    = [(0, .callAfter)] := by decide
+example : drops [] [] [] [] .err (.call 0 (.storage "DeleteAuthRequest") 0 (.ret .nil)) [] (.clean none) = [(0, .retNotErr)] := by decide
+
+/-! ### FINDING F-C10a (the unchanged code): revocation reports success although the key lookup failed -/
+
+/-- a concrete execution of the regenerated `Revoke` handler (public client, `token_type_hint=access_token`, a JWT access token):
+    `Storage.KeySet` fails inside OpenIDKeySet.VerifySignature, five functions below the handler; getTokenIDAndSubjectForRevocation
+    turns the error into `ok = false`, which Revoke does not look at: RevokeToken is called with the unparsed token and the handler
+    builds the 200 answer.  A failing storage call IS followed by a success step - which is why the two revocation rows of
+    `toleratedSites` are marked as a finding and the main theorem is `…_partial`.  Replayed on the real handlers by the stream
+    (flow revoke, JWT access tokens, fault at KeySet; known-findings.jsonl F-C10a). -/
+def revokeWitnessScript : List Choice :=
+  [.pick "ParseTokenRevocationRequest", .val .nil, .val .nil, .right, .right, .right, .ok, .left, .right, .right, .left,
+   .pick "getTokenIDAndSubjectForRevocation", .val (.hard .plain), .pick "VerifyAccessToken", .val .nil, .val .nil, .right,
+   .pick "oidc.CheckSignature", .val .nil, .right, .right, .pick "OpenIDKeySet.VerifySignature", .fail .plain, .ok]
+
+/-- the event at position 1 is a failed storage call and a success step follows it -/
+def revokeWitnessCheck : Option (List Ev × CV) → Bool
+  | some (tr, _) => (tr[1]?.any Ev.isFail) && !noSucc (tr.drop 2)
+  | none => false
+
+theorem c10_revoke_keyset_witness :
+    ∃ (f : Nat) (F : Fn) (tr : List Ev) (x : CV) (i : Nat) (e : Ev),
+      GenC10.fns.findIdx? (·.name == "Revoke") = some f ∧ GenC10.fns[f]? = some F ∧
+      Run GenC10.fns audit f F.sk (fun _ => .nil) tr x ∧
+      tr[i]? = some e ∧ e.isFail = true ∧ noSucc (tr.drop (i + 1)) = false := by
+  have h : revokeWitnessCheck (execFn GenC10.fns audit "Revoke" revokeWitnessScript) = true := by decide
+  cases hr : execFn GenC10.fns audit "Revoke" revokeWitnessScript with
+  | none => rw [hr] at h; cases h
+  | some r =>
+    obtain ⟨tr, x⟩ := r
+    rw [hr] at h
+    simp only [revokeWitnessCheck, Bool.and_eq_true] at h
+    obtain ⟨f, F, hf, hF, hrun⟩ := execFn_sound hr
+    cases he : tr[1]? with
+    | none => simp [he] at h
+    | some e => exact ⟨f, F, tr, x, 1, e, hf, hF, hrun, he, by simpa [he] using h.1, by simpa using h.2⟩
+
+/-- the same execution in events: a successful client lookup, the failing KeySet call, the audited site, RevokeToken, the 200 -/
+example : (execFn GenC10.fns audit "Revoke" revokeWitnessScript).map (fun r => r.1.map fun e => (e.isCall, e.isFail, e.isAbs, e.isSucc)) =
+    some [(true, false, false, false), (true, true, false, false), (false, false, true, false), (true, false, false, false), (false, false, false, true)] := by decide
 
 end C10
